@@ -220,6 +220,45 @@ def McStateExtra (sp : Bool) (cell_slice : Frag) : Rd.R := do
     pure ((Rd.obj "McStateExtra" [("shard_hashes", t2), ("config", t3), ("flags", t6), ("validator_info", t8), ("prev_blocks", t9), ("after_key_block", t10), ("last_key_block", t11), ("block_create_stats", t15), ("global_balance", t16)]), cell_slice)
 -- END McStateExtra
 
+-- BEGIN ShardStateUnsplit
+def ShardStateUnsplit (sp : Bool) (cell_slice : Frag) : Rd.R := do
+  if sp then do
+    pure (Val.unit, cell_slice)
+  else do
+    let (t1, cell_slice) ← Rd.loadBytes 4 cell_slice
+    if (!(Rd.veq t1 (Rd.bytesLit [144, 35, 175, 226]))) then none else
+    let (t2, cell_slice) ← Rd.loadInt 32 cell_slice
+    let (t3, cell_slice) ← Src.ShardIdent sp cell_slice
+    let (t4, cell_slice) ← Rd.loadUint 32 cell_slice
+    let (t5, cell_slice) ← Rd.loadUint 32 cell_slice
+    let (t6, cell_slice) ← Rd.loadUint 32 cell_slice
+    let (t7, cell_slice) ← Rd.loadUint 64 cell_slice
+    let (t8, cell_slice) ← Rd.loadUint 32 cell_slice
+    let (t9, cell_slice) ← Rd.loadRefV cell_slice
+    let (t10, cell_slice) ← Rd.loadBit cell_slice
+    let (t11, cell_slice) ← Rd.viaRef ShardAccounts cell_slice
+    let (c12, cell_slice) ← Rd.loadRef cell_slice
+    let r13 := Rd.beginParse c12
+    let sl_ref := r13
+    let t14 := Val.unit
+    let t15 := Val.unit
+    let t16 := Val.unit
+    let t17 := Val.unit
+    let t18 := Val.unit
+    let t19 := Val.unit
+    let (t26, t27, t28, t29, t30, t31, sl_ref) ← (if (!(Rd.special c12)) then do
+          let (t20, sl_ref) ← Rd.loadUint 64 sl_ref
+          let (t21, sl_ref) ← Rd.loadUint 64 sl_ref
+          let (t22, sl_ref) ← SrcTx.CurrencyCollection (Rd.special c12) sl_ref
+          let (t23, sl_ref) ← SrcTx.CurrencyCollection (Rd.special c12) sl_ref
+          let (t24, sl_ref) ← Rd.loadDictRaw 256 sl_ref
+          let (t25, sl_ref) ← Rd.optional sl_ref (Src.BlkMasterInfo (Rd.special c12))
+          pure (t20, t21, t22, t23, t24, t25, sl_ref)
+        else pure (t14, t15, t16, t17, t18, t19, sl_ref))
+    let (t32, cell_slice) ← Rd.optional cell_slice (Rd.viaRef McStateExtra)
+    pure ((Rd.obj "ShardStateUnsplit" [("global_id", t2), ("shard_id", t3), ("seq_no", t4), ("vert_seq_no", t5), ("gen_utime", t6), ("gen_lt", t7), ("min_ref_mc_seqno", t8), ("out_msg_queue_info", t9), ("before_split", t10), ("accounts", t11), ("overload_history", t26), ("underload_history", t27), ("total_balance", t28), ("total_validator_fees", t29), ("libraries", t30), ("master_ref", t31), ("custom", t32)]), cell_slice)
+-- END ShardStateUnsplit
+
 /-- the readers by class name (driver op `tlbsrcblk`) -/
 def readers : List (String × (Bool → Frag → Rd.R)) := [
   ("DepthBalanceInfo", DepthBalanceInfo),
@@ -233,6 +272,7 @@ def readers : List (String × (Bool → Frag → Rd.R)) := [
   ("OldMcBlocksInfo", OldMcBlocksInfo),
   ("BlockCreateStats", BlockCreateStats),
   ("ConfigParams", ConfigParams),
-  ("McStateExtra", McStateExtra)]
+  ("McStateExtra", McStateExtra),
+  ("ShardStateUnsplit", ShardStateUnsplit)]
 
 end TonVerif.Tlb.SrcBlk
